@@ -1,13 +1,25 @@
 (** Correspondence runner (Q instance): fold [handle] over a history and compare every result
     with what the implementation returned (given as data by the harness). *)
 From Coq Require Import QArith Qreduction Qabs String Ascii List Bool.
-From ER Require Import Base.Num Model.Geometry Model.Axis Model.Filter Model.Cases.
+From ER Require Import Base.Num Model.Lexer Model.Words Model.Geometry Model.Axis Model.Filter Model.Cases.
 Import ListNotations.
 Open Scope string_scope.
 Open Scope list_scope.
 
 (** what the implementation emitted, as read back by harness/reader.py *)
 Record ecmd := mkE { etext : string; ecode : string; ewords : list (witem Q) }.
+
+(** blank-separated tokens of a text *)
+Fixpoint tokens_fuel (fuel : nat) (s : string) : list string :=
+  match fuel with
+  | O => []
+  | S f => let '(_, r) := span is_sp s in
+           match r with
+           | "" => []
+           | _ => let '(t, r') := span (fun c => negb (is_sp c)) r in t :: tokens_fuel f r'
+           end
+  end.
+Definition tokens (s : string) : list string := tokens_fuel (S (String.length s)) s.
 
 Inductive event :=
 | ECmd (m : icmd Q)
@@ -36,9 +48,38 @@ Fixpoint words_match (a b : list (witem Q)) : bool :=
   end.
 Definition num (k : string) (v : Q) : witem Q := (k, MNum v).
 
-(** entries with an empty key and no value are dropped by the parameterDict setter *)
-Definition merged_words (args : list (witem Q)) : list (witem Q) :=
-  filter (fun w => match w with ("", MNone) => false | _ => true end) args.
+(** a merged deferred command is compared token by token with the text the implementation built:
+    key ++ number (value within tolerance), a bare key, or the blank-separated pieces of a string argument;
+    entries with an empty key and no value are dropped by the parameterDict setter *)
+Inductive tokpat := TNum (k : string) (v : Q) | TText (t : string).
+Definition merged_pats (args : list (witem Q)) : list tokpat :=
+  flat_map (fun w => match w with
+                     | (k, MNum v) => [TNum k v]
+                     | (k, MNone) => match k with "" => [] | _ => [TText k] end
+                     | (k, MStr t) => match tokens (k ++ t) with [] => [] | l => map TText l end
+                     end) args.
+Definition tok_match (p : tokpat) (t : string) : bool :=
+  match p with
+  | TText x => String.eqb x t
+  | TNum k v =>
+      let n := String.length k in
+      String.eqb (substring 0 n t) k &&
+      match number (substring n (String.length t - n) t) with
+      | Some (num, "") => Qclose v (number_value num)
+      | _ => false
+      end
+  end.
+Fixpoint toks_match (ps : list tokpat) (ts : list string) : bool :=
+  match ps, ts with
+  | [], [] => true
+  | p :: tp, t :: tr => tok_match p t && toks_match tp tr
+  | _, _ => false
+  end.
+Definition merged_match (g : string) (args : list (witem Q)) (e : ecmd) : bool :=
+  match tokens (etext e) with
+  | c :: ts => String.eqb c g && toks_match (merged_pats args) ts
+  | [] => false
+  end.
 
 Definition ocmd_match (o : ocmd Q) (e : ecmd) : bool :=
   match o with
@@ -48,7 +89,7 @@ Definition ocmd_match (o : ocmd Q) (e : ecmd) : bool :=
   | MoveXY f x y => String.eqb (ecode e) "G0" && words_match [num "F" f; num "X" x; num "Y" y] (ewords e)
   | ExtrudeTo f v => String.eqb (ecode e) "G1" && words_match [num "F" f; num "E" v] (ewords e)
   | FwCmd rec p => String.eqb (etext e) ((if rec then "G11" else "G10") ++ (if String.eqb p "" then "" else " " ++ p))
-  | Merged g args => String.eqb (ecode e) g && words_match (merged_words args) (ewords e)
+  | Merged g args => merged_match g args e
   end.
 Fixpoint ocmds_match (a : list (ocmd Q)) (b : list ecmd) : bool :=
   match a, b with
